@@ -17,6 +17,30 @@ CLAIMED = {
          "Trusts TLC, the transcription of the property into InLang/Tokens, and the harness' mapping of byte sequences to Go strings; "
          "beyond the exhaustive bounds coverage is by recorded random traces."),
 }
+
+_chain_note = ("Trusts TLC, the transcription of the rule sets from the property text, the harness' concretization (abstract "
+               "principals -> real keys of mixed algorithms, abstract links -> real sealed delegations, relative clock) and the "
+               "policy catalogue (self-checked against the real matcher at every run). Chain length is bounded (<=2..4 exhaustively, "
+               "<=6 in recorded traces).")
+def _chain(pid, what):
+    return ("model_checking",
+            "TLA+ spec Chain.tla (validation machine shaped like ExecutionAllowed vs declarative rule sets) model-checked with TLC; "
+            "every exported (invocation, proof list, instant) replayed on the real ExecutionAllowed with real keys/sealed tokens; "
+            "recorded validations of random stores and of the repository's fixture store validated by TraceChain.tla",
+            "TLC exhaustively explores the bounded product this property quantifies over (" + what + ") on a machine that steps like "
+            "loadProofs/verifyProofs/verifyTimeBound/verifyArgs and checks it against the declarative rules (Agree, Sound*, Complete, "
+            "audience irrelevance, monotonicity). Every terminal state is exported with the expected decision and executed against the "
+            "real API (plain loaders, unsealed tokens and container.Reader loaders; sealed/unsealed invocations); recorded traces of "
+            "thousands of random and fixture-based real validations are accepted or rejected by the same rule operators.",
+            _chain_note)
+CLAIMED.update({
+ "C01": _chain("C01", "all principal assignments of invocation and links incl. Undef subjects and missing delegations, lengths 0..2 quick / 0..3 thorough"),
+ "C02": _chain("C02", "all command assignments from a lattice with equal/parent/child/sibling/shared-textual-prefix/top relations, lengths 0..3 / 0..4"),
+ "C03": _chain("C03", "all distributions of statement acceptance vectors over the links, argument points and argument hooks"),
+ "C04": _chain("C04", "all present/absent/inverted bound combinations on invocation and links, probe instants on both sides of each bound via Tick"),
+ "C05": _chain("C05", "constructively generated rule-conforming chains with repeated principals, attenuating commands, satisfiable policies, valid windows and free irrelevant fields"),
+})
+
 NOT_YET = "check not built yet in this session (work in progress; see DESIGN.md section 3 for the planned model)"
 
 checks, na = [], []
